@@ -25,6 +25,104 @@ type thread struct {
 	wClosed bool
 	// timerFires (kept on thread 0): how often a may-fire timer channel delivered on this path
 	timerFires int
+	// held: mutexes this thread holds (2 = exclusive, 1 = shared), for the lockset check
+	held map[*mutexState]int
+}
+
+func (t *thread) hold(ms *mutexState, mode int) {
+	if t.held == nil {
+		t.held = map[*mutexState]int{}
+	}
+	t.held[ms] = mode
+}
+
+func (t *thread) release(ms *mutexState) { delete(t.held, ms) }
+
+// mapState is the Eraser state of one map object (lockset check, see noteMap).
+type mapState struct {
+	owner    int                 // first accessing thread
+	shared   bool                // a second thread has accessed it
+	modified bool                // written since the candidate set was (re)started
+	cand     map[*mutexState]int // candidate locks: held at every counted access (2 = exclusively at every access)
+	lastSite string
+}
+
+func intersectLocks(cand, held map[*mutexState]int, write bool) map[*mutexState]int {
+	out := map[*mutexState]int{}
+	for k, v := range cand {
+		hv, ok := held[k]
+		if !ok {
+			continue
+		}
+		if write && hv < 2 {
+			continue // a write is protected by an exclusively held lock only
+		}
+		if hv < v {
+			v = hv
+		}
+		out[k] = v
+	}
+	return out
+}
+
+// noteMap implements the Eraser lockset discipline for Go maps while verifrt.LocksetRace is
+// on. Every map object accessed by spawned goroutines keeps a candidate set: the locks held
+// at every access so far (a lock held only for reading does not protect a write). When two
+// different goroutines have accessed the object, it has been written, and the candidate set is
+// empty, no lock protects it: violation "data-race". As in Eraser, an object that its first
+// goroutine touched without any lock (initialisation before it is published, e.g. a map
+// literal later handed to a store) starts a fresh candidate set at the first access by another
+// goroutine; an object whose first goroutine always held a lock (a store's own map) does not
+// get that allowance, so a single unlocked access by the second goroutine is reported. The
+// cooperative scheduler never interleaves inside a map operation, so an access made without a
+// lock would otherwise be invisible. Accesses by the harness thread (id 0) are ordered by
+// go/join and are not counted.
+func (m *machine) noteMap(fr *frame, mp *omap, write bool) {
+	if !m.raceOn || mp == nil || fr == nil || fr.th == nil || fr.th.id == 0 || m.raceSeen {
+		return
+	}
+	held := fr.th.held
+	site := ""
+	if fr.fn != nil {
+		site = fr.fn.String()
+	}
+	if m.mapAcc == nil {
+		m.mapAcc = map[*omap]*mapState{}
+	}
+	st := m.mapAcc[mp]
+	if st == nil {
+		st = &mapState{owner: fr.th.id, cand: map[*mutexState]int{}, modified: write, lastSite: site}
+		for k, v := range held {
+			if write && v < 2 {
+				continue
+			}
+			st.cand[k] = v
+		}
+		m.mapAcc[mp] = st
+		return
+	}
+	if !st.shared && fr.th.id != st.owner {
+		st.shared = true
+		if len(st.cand) == 0 {
+			// initialised without locks by its first goroutine: start over (Eraser)
+			st.modified = false
+			st.cand = map[*mutexState]int{}
+			for k, v := range held {
+				st.cand[k] = v
+			}
+		}
+	}
+	st.cand = intersectLocks(st.cand, held, write)
+	if write {
+		st.modified = true
+	}
+	if st.shared && st.modified && len(st.cand) == 0 {
+		m.raceSeen = true
+		m.recordViolation("data-race:map-accessed-by-two-goroutines-without-a-common-lock", "race",
+			map[string]string{"earlier": st.lastSite, "now": site})
+		return
+	}
+	st.lastSite = site
 }
 
 type waitCase struct {
